@@ -78,7 +78,10 @@ fn unknown_table(parser: &mut Parser, open_tag: Range<usize>) {
     loop {
         match parser.nth(0).kind {
             Kind::RBrace if parser.nth_raw(1) == parser.raw_range(open_tag.clone()) => {
-                assert!(parser.eat(Kind::RBrace) && parser.eat(Kind::Ident));
+                // the closing tag repeats the opening tag's text, but it need not lex
+                // as an identifier (`table markClass { } markClass;`)
+                parser.eat_raw();
+                parser.eat_raw();
                 parser.expect_semi();
                 break;
             }
